@@ -3,7 +3,6 @@ import PPProofs.Lemmas.DiagramConv
     `_to_diagram_element`. This is why a second visit of an unnamed element converts it again. -/
 namespace PP.Diagram
 
-def customOf (g : Grammar) (u : Nat) : Option String := (g[u]?).bind (·.custom)
 
 /-- every unnamed element: its ElementState (if any) has `name = None`, `extract = False`; it has no diagram -/
 def UInv (g : Grammar) (s : St) : Prop :=
